@@ -59,6 +59,23 @@ def _run_task(args):
     return out
 
 
+def _obligation_listing(results, limit=400):
+    full = [{"id": r["id"], "status": r["status"], "backend": r["backend"], "time_s": r["time_s"], **({"shape": r["shape"]} if r.get("shape") else {})} for r in results]
+    if len(full) <= limit:
+        return full
+    # many obligations are the same clause on different paths: aggregate by clause (id without the @path suffix)
+    agg = {}
+    for r in full:
+        clause = r["id"].split("@")[0]
+        a = agg.setdefault(clause, {"clause": clause, "count": 0, "discharged": 0, "backends": {}, "max_time_s": 0.0})
+        a["count"] += 1
+        a["discharged"] += r["status"] == "discharged"
+        a["backends"][r["backend"]] = a["backends"].get(r["backend"], 0) + 1
+        a["max_time_s"] = max(a["max_time_s"], r["time_s"])
+    out = list(agg.values())
+    return {"aggregated_by_clause": out[:1500], "clauses": len(out), "obligations": len(full), "not_discharged": [r for r in full if r["status"] != "discharged"][:200]}
+
+
 def load_known():
     path = os.path.join(ROOT, "known_findings.json")
     if not os.path.exists(path):
@@ -209,7 +226,7 @@ def main(argv=None):
             "not_decided": not_decided,
             "known_findings_hit": [{"finding": k["id"], "obligation": r["id"], "witness_class": r.get("witness_class"), "model": r.get("model"), "replay": r.get("replay")} for k, r in known_hit],
             "samples": sample_obs + samples[:3],
-            "all_obligations": [{"id": r["id"], "status": r["status"], "backend": r["backend"], "time_s": r["time_s"], **({"shape": r["shape"]} if r.get("shape") else {})} for r in results],
+            "all_obligations": _obligation_listing(results),
             "task_wall_s": task_wall,
             "partial_run": partial,
             "notes": notes,
